@@ -33,7 +33,7 @@ RULE = ("each case: up to 6 bundles with lifetimes (T0+a, T0+b), a/b around the 
         "(the identical bundle may be added again) / fetch one-time / fetch long-term / remove_expired / count; (ii) re-registration histories: a bundle "
         "registered while valid and registered again before, at and after its expiry; (iii) restored states: a member's one-time / long-term Vec replaced "
         "through the serde representation (CBOR bytes) by an arbitrary list of pool bundles, then getters/adds/remove_expired. "
-        "quick: 300 + 60 + 300 cases without waiting and 32 + 24 + 16 cases with 1-3 real one-second waits; thorough: ten times that. "
+        "quick: 240 + 50 + 250 cases without waiting and 32 + 24 + 16 cases with 1-3 real one-second waits; thorough: 3000 + 600 + 3000 and 240 + 160 + 120. "
         "non-trivial = a bundle accepted and one rejected/skipped/expired and one returned (random); a re-add plus an answer (re-registration); "
         "a restored list of >= 2 bundles and a getter answer (restored)")
 NONTRIVIAL_FLOOR = 20
@@ -189,11 +189,11 @@ def gen(tier, rng):
     yield {"pool": [[-1, 2, 1], [-1, 9, 1]], "ops": ["ao:0:1", "ao:0:0", "al:0:0", "w", "w", "go:0", "gl:0", "go:0", "go:0"]}
     yield {"pool": [[-1, 1, 1]], "ops": ["ao:0:0", "al:0:0", "go:0", "gl:0"]}
     yield {"pool": [[0, 5, 1], [-1, 0, 1], [-1, 1, 0]], "ops": ["ao:0:0", "ao:0:1", "ao:0:2", "al:0:0", "al:0:1", "al:0:2", "go:0", "gl:0"]}
-    for _ in range(300 if quick else 3000):
+    for _ in range(240 if quick else 3000):
         yield _case(rng, 0)
-    for _ in range(60 if quick else 600):
+    for _ in range(50 if quick else 600):
         yield _readd_case(rng, 0)
-    for _ in range(300 if quick else 3000):
+    for _ in range(250 if quick else 3000):
         yield _restored_case(rng, 0)
     for _ in range(32 if quick else 240):
         yield _case(rng, rng.randint(1, 3))
